@@ -21,6 +21,8 @@ SINGLE_FAULTS = [('source', f) for f in orch.TEXT_FAULTS + orch.CODEGEN_FAULTS +
     [('source_error', k) for k in ('reader', 'generic')] + \
     [('parser', 'parser'), ('parser', 'lexer'), ('codegen', 'codegen'), ('codegen', 'semantic'),
      ('writer', 'error'), ('searcher', 'error'), ('none', None)]
+# what the random phase draws per module and source: every source-level outcome, or a parser fault
+RANDOM_FAULTS = [f for f in SINGLE_FAULTS if f[0] in ('source', 'source_error')] + [('parser', 'parser')]
 OPTION_SETS_QUICK = [
     {}, {'ignoreErrors': True}, {'noDeps': True}, {'dryRun': True}, {'writeMibs': False},
     {'rebuild': True}, {'genTexts': True}, {'noDeps': True, 'ignoreErrors': True},
@@ -116,7 +118,7 @@ def build_random(rng, tier):
             if ns > 1 and r < 0.35:
                 scn['sources'][si][m] = 'absent'
             elif r < 0.5:
-                stage, k = rng.choice(SINGLE_FAULTS[:15])
+                stage, k = rng.choice(RANDOM_FAULTS)
                 apply_fault(scn, m, stage, k, si)
     for m in mods:
         r = rng.random()
@@ -157,7 +159,7 @@ def build_partial_multi(rng):
     scn = orch.new_scenario(mods, {'AA-MIB': ['BB-MIB']}, ['AA-MIB'])
     scn['files']['AA-MIB'] = ['AA-MIB', 'EE-MIB']
     scn['sources'][0].pop('EE-MIB')
-    scn['extra_variant'] = {'EE-MIB': rng.choice(['dupsym', 'unresolved'])}
+    scn['extra_variant'] = {'EE-MIB': rng.choice(['dupsym', 'unresolved', 'untyped'])}
     scn['options'] = {'ignoreErrors': True} if rng.random() < 0.7 else {}
     return scn, 'partial_multi_file'
 
@@ -171,7 +173,7 @@ def build_twice_held(rng):
     scn = orch.new_scenario(mods, g, req)
     scn['files']['YY-MIB'] = ['YY-MIB', 'XX-MIB']
     scn['sources'][0].pop('XX-MIB')
-    scn['own_files'] = {'XX-MIB': rng.choice(['synerr', 'lexerr', 'truncated', 'unresolved', 'dupsym'])}
+    scn['own_files'] = {'XX-MIB': rng.choice(['synerr', 'lexerr', 'truncated', 'unresolved', 'dupsym', 'untyped'])}
     scn['options'] = {'ignoreErrors': True} if rng.random() < 0.7 else {}
     return scn, 'twice_held'
 
